@@ -229,20 +229,149 @@ def gen_cp(rng):
     return "cp %d %s %s" % (n, " ".join(parts), nl(order))
 
 
+# ---- checkpoints with nearly colliding identifiers (op cpx: names are hex encoded, any bytes) ----------------
+
+def hexname(b):
+    if isinstance(b, str):
+        b = b.encode("latin-1")
+    return b.hex() if b else "-"
+
+
+def cp_object(i, kind):
+    """object number i: contents unique per i, so that restoring a wrong record is observable"""
+    if kind == "dv":
+        return "dv " + fl([Fraction(100 * (i + 1) + j) for j in range(i + 1)])
+    r, c = 2 + i % 3, 2 + (i // 2) % 2
+    rp, ci = [0], []
+    for row in range(r):
+        if (row + i) % 3 != 1:          # an empty row in most matrices
+            ci.append((row + i) % c)
+        rp.append(len(ci))
+    return "csr %d %d 0 %s %s %s" % (r, c, nl(rp), nl(ci), fl([Fraction(1000 * (i + 1) + k, 2) for k in range(len(ci))]))
+
+
+NAME_FAMILIES = [
+    ["u", "U"], ["velocity", "Velocity", "VELOCITY", "velocitY"], ["a", "ab", "abc", "abcd"], ["ab", "a"],
+    ["vec_a1", "vec_a2", "vec_b1", "vec_b2", "wec_a1"], ["my vec", "my  vec", "my_vec", "myvec", "my vec "],
+    ["x.1", "x-1", "x_1", "x 1", "x1", "x:1"], ["1", "10", "2", "01", "1 "], ["B", "a", "A", "b", "_", "Z"],
+    ["sol", "sol.", "sol..", ".sol"], ["p", "P", "pp", "pP", "Pp", "PP"], ["a b", "a", "b", " a", "b "],
+    ["\xe4", "a", "\xc4", "A", "\xff", "\x7f"], ["rhs#0", "rhs#1", "rhs#10", "rhs#00"],
+    ["x" * 255, "x" * 256, "x" * 257], ["y" * 300 + "a", "y" * 300 + "b", "y" * 300],
+    ["L" * 4096, "l" * 4096, "L" * 4095 + "l"], ["k" * 8, "k" * 16, "k" * 7],
+]
+
+
+def cpx_case(names, kinds=None, order=None, indiv=0):
+    n = len(names)
+    kinds = kinds or [("dv" if i % 2 == 0 else "csr") for i in range(n)]
+    parts = ["%s %s" % (hexname(nm), cp_object(i, kinds[i])) for i, nm in enumerate(names)]
+    order = list(range(n)) if order is None else order
+    return "cpx %d %d %s %s" % (indiv, n, " ".join(parts), nl(order))
+
+
+def cpx_corpus():
+    """deterministic: every family, pairs in both registration orders, every restore order, shared and
+    individual restore; plus each family as a whole"""
+    import itertools
+    out = []
+    for fam in NAME_FAMILIES:
+        pairs = list(itertools.combinations(fam[:4], 2)) if len(fam[0]) < 100 else [tuple(fam[:2]), (fam[0], fam[-1])]
+        for a, b in pairs:
+            for names in ((a, b), (b, a)):
+                for order in ([0, 1], [1, 0], [0], [1]):
+                    for kinds in (["dv", "csr"], ["dv", "dv"]):
+                        out.append(cpx_case(list(names), kinds, order, indiv=len(out) % 2))
+        k = min(len(fam), 6)
+        out.append(cpx_case(fam[:k], None, list(range(k)), 0))
+        out.append(cpx_case(list(reversed(fam[:k])), ["csr" if i % 2 == 0 else "dv" for i in range(k)],
+                            list(reversed(range(k))), 1))
+    return out
+
+
+def ascii_swap(c):
+    return c.upper() if "a" <= c <= "z" else (c.lower() if "A" <= c <= "Z" else c)
+
+
+def mutate_name(rng, nm):
+    """a near collision of nm (never returns nm itself for non-empty nm)"""
+    b = bytearray(nm.encode("latin-1"))
+    k = rng.randrange(8)
+    if k == 0 or not b:
+        return (nm + rng.choice("abAB01 ._")).encode("latin-1").decode("latin-1")
+    if k == 1 and len(b) > 1:
+        return bytes(b[:-1]).decode("latin-1")                      # proper prefix
+    if k == 2:
+        sw = "".join(ascii_swap(c) for c in nm)
+        return sw if sw != nm else nm + "x"
+    if k == 3:
+        i = rng.randrange(len(b))
+        b[i] = (b[i] + rng.choice([1, 2, 255, 32, 128])) % 256     # one character differs, same length
+        if b[i] in (0,):
+            b[i] = 1
+        return bytes(b).decode("latin-1")
+    if k == 4:
+        i = rng.randrange(len(b) + 1)
+        return (nm[:i] + rng.choice(" ._-#") + nm[i:])
+    if k == 5 and len(b) > 1:
+        i = rng.randrange(len(b) - 1)
+        b[i], b[i + 1] = b[i + 1], b[i]
+        r = bytes(b).decode("latin-1")
+        return r if r != nm else nm + "~"
+    if k == 6:
+        return nm + nm
+    i = rng.randrange(len(b))
+    c = chr(b[i])
+    return nm[:i] + (ascii_swap(c) if ascii_swap(c) != c else ("Q" if c != "Q" else "q")) + nm[i + 1:]
+
+
+def gen_cpx(rng):
+    n = rng.choice([2, 2, 3, 3, 4, 5, 6])
+    k = rng.random()
+    if k < 0.35:
+        fam = rng.choice(NAME_FAMILIES)
+        names = rng.sample(fam, min(n, len(fam)))
+    else:
+        if k < 0.5:
+            base = rng.choice(["x", "y", "Ab"]) * rng.choice([100, 255, 256, 1000, 5000])
+        elif k < 0.8:
+            base = "".join(rng.choice("abcXYZ019_-. #") for _ in range(rng.choice([1, 2, 3, 5, 8, 9, 16, 17])))
+        else:
+            base = "".join(chr(rng.randrange(1, 256)) for _ in range(rng.choice([1, 2, 8, 9])))
+        names = [base]
+        while len(names) < n:
+            cand = mutate_name(rng, rng.choice(names))
+            if cand not in names and cand != "":
+                names.append(cand)
+    rng.shuffle(names)
+    n = len(names)
+    kinds = [rng.choice(["dv", "csr"]) for _ in range(n)]
+    style = rng.random()
+    if style < 0.5:
+        order = list(range(n))
+        rng.shuffle(order)
+    elif style < 0.75:
+        order = [rng.randrange(n)]                              # one object alone
+    else:
+        order = [rng.randrange(n) for _ in range(rng.randrange(1, 2 * n + 1))]   # repeats, subsets
+    return cpx_case(names, kinds, order, indiv=rng.choice([0, 0, 1]))
+
+
 def gen_cases(rng, count):
     cases = []
     for _ in range(count):
         k = rng.random()
-        if k < 0.30:
+        if k < 0.28:
             cases.append(gen_raw(rng))
-        elif k < 0.60:
+        elif k < 0.55:
             cases.append(gen_kind(rng))
-        elif k < 0.80:
+        elif k < 0.73:
             cases.append(gen_txt(rng, True))
-        elif k < 0.88:
+        elif k < 0.80:
             cases.append(gen_txt(rng, False))
-        else:
+        elif k < 0.87:
             cases.append(gen_cp(rng))
+        else:
+            cases.append(gen_cpx(rng))
     return cases
 
 
@@ -261,7 +390,7 @@ CORPUS = [
     "raw 3 3 4 8 8 4 3 1 2 3 1 1/2 1 1 3/4 1 1 7",
     "cp 2 b dv 2 1/1 2/1 a csr 2 2 0 3 0 1 1 1 1 1 5/1 2 1 0",
     "cp 1 a dv 0 1 0",
-]
+] + cpx_corpus()
 
 # Inputs on which the property FAILS on the current tree (genuine FEAT defects, see KNOWN_FINDINGS.json and
 # DESIGN.md section 8). They are executed and judged like every other input; each is matched against an *open*
@@ -561,13 +690,18 @@ def oracle(case, out):
             if op == "txt" and eq != 1:
                 return "operator== reports the read-back %s as different" % kind
             return None
-        if op == "cp":
+        if op in ("cp", "cpx"):
+            if op == "cpx":
+                a.nat()
             n = a.nat()
-            exp = []
+            exp, names = [], []
             for _ in range(n):
-                a.tok()
+                nm = a.tok()
+                names.append(nm.encode() if op == "cp" else bytes.fromhex("" if nm == "-" else nm))
                 exp.append(expected_layout(a.tok(), a))
             order = a.lst()
+            if len(set(names)) != n:
+                return None if out.startswith("ABORT") else "duplicate identifier was not rejected"
             if is_abnormal(out):
                 return "checkpoint round trip ended with " + out
             o = Tk(out)
@@ -576,6 +710,15 @@ def oracle(case, out):
             b = bytes.fromhex(hexs)
             if struct.unpack("<Q", b[:8])[0] != len(b) - 8:
                 return "checkpoint length word does not match the stream"
+            # the stream holds every identifier exactly once, byte for byte
+            pos, seen = 8, []
+            while pos < len(b):
+                ln = struct.unpack("<Q", b[pos:pos + 8])[0]
+                seen.append(b[pos + 8:pos + 8 + ln])
+                dl = struct.unpack("<Q", b[pos + 8 + ln:pos + 16 + ln])[0]
+                pos += 16 + ln + dl
+            if pos != len(b) or sorted(seen) != sorted(names):
+                return "identifiers stored in the checkpoint %s differ from the registered ones" % seen[:6]
             for k in order:
                 got = o.dump()
                 assert o.tok() == "EQ"
@@ -603,6 +746,8 @@ def nontrivial(case):
     op = t[0]
     if op == "cp":
         return int(t[1]) >= 2
+    if op == "cpx":
+        return int(t[2]) >= 2
     if op == "raw":
         a = Tk(case)
         a.tok(), a.nat(), a.nat()
@@ -675,6 +820,33 @@ def describe(case):
             keys.append("length-0")
     elif t[0] == "cp":
         keys.append("objects:" + t[1])
+    elif t[0] == "cpx":
+        keys.append("objects:" + t[2])
+        keys.append("restore:" + ("individual" if t[1] == "1" else "shared"))
+        a = Tk(case)
+        a.tok(), a.nat()
+        names = []
+        for _ in range(a.nat()):
+            nm = a.tok()
+            names.append(bytes.fromhex("" if nm == "-" else nm))
+            expected_layout(a.tok(), a)
+        cls = set()
+        for x in names:
+            for y in names:
+                if x != y:
+                    if x.lower() == y.lower():
+                        cls.add("names:case-only")
+                    if y.startswith(x):
+                        cls.add("names:prefix")
+                    if len(x) == len(y) and sum(p != q for p, q in zip(x, y)) == 1:
+                        cls.add("names:one-char")
+        if any(len(x) >= 255 for x in names):
+            cls.add("names:long")
+        if any(not chr(ch).isalnum() for x in names for ch in x):
+            cls.add("names:punct/blank/high")
+        if sorted(names) != sorted(names, key=lambda z: (z.lower(), z)):
+            cls.add("names:case-sensitive-order-differs")
+        keys += sorted(cls)
     return keys
 
 
